@@ -11,3 +11,5 @@ import NostrRelay.Props.C01
 import NostrRelay.Props.C02
 import NostrRelay.Props.C12
 import NostrRelay.Props.C11
+import NostrRelay.Props.KVScan
+import NostrRelay.Props.C09
